@@ -1,7 +1,8 @@
 #!/bin/sh
 # MANIFEST.setup_cmd: offline cold build of the Lean project (models, proofs, driver) from files on disk.
 cd "$(dirname "$0")" || exit 2
-export PYTHONPATH="/repo:$(pwd)" PYTHONDONTWRITEBYTECODE=1
+export VERIF_REPO="${VERIF_REPO:-/repo}"
+export PYTHONPATH="$VERIF_REPO:$(pwd)" PYTHONDONTWRITEBYTECODE=1
 /venv/bin/python tools/gen_lean.py || echo "setup: translator refused the current source (checks will report it)"
 cd lean || exit 2
 lake build AsyncFix driver 2>&1 | tail -5
